@@ -46,6 +46,7 @@ type progOpts struct {
 	File                bool `json:"file"`   // load the source from a file named "c" (LoadFile) instead of from a string
 	Thread              bool `json:"thread"` // run the program in a state made by NewThread, the context attached to THAT state
 	Fresh               bool `json:"fresh"`  // no library is opened: running the program is the very first call on the state
+	Foot                bool `json:"foot"`   // record the per-instruction register footprint of the main thread (FramesStep)
 }
 
 type progIn struct {
@@ -65,6 +66,7 @@ type progOut struct {
 	Outcome     []interface{} `json:"outcome"`
 	Polls       int           `json:"polls"`
 	Snaps       []interface{} `json:"snaps,omitempty"`
+	Steps       []interface{} `json:"steps,omitempty"`       // distinct per-instruction footprint steps (opts.foot)
 	After       int           `json:"after,omitempty"`       // polls observed after the fault/cancel point
 	CancelSp    int           `json:"cancelsp,omitempty"`    // call depth (main thread) at the cancelling poll
 	CancelEmits int           `json:"cancelemits,omitempty"` // emit events before the cancelling poll
@@ -373,6 +375,11 @@ func runProgram(p progIn) (res progOut) {
 		}
 	})
 	defer wd.Stop()
+	if p.Opts != nil && p.Opts.Foot {
+		ft := newFootTracker(R)
+		ctx.onPoll = func(n int) { ft.step() }
+		defer func() { res.Steps = ft.steps }()
+	}
 	ctx.onCancel = func() {
 		res.CancelSp = R.VerifSnapshot().Sp
 		res.CancelEmits = len(res.Emits)
